@@ -260,8 +260,14 @@ _pred_cache = {}
 
 def two_connections_case(res, W, rng, i):
     from ..sim import sched
-    t1 = [round(rng.uniform(0.5, 4.0), 2) for _ in range(rng.randrange(1, 3))]
-    t2 = [round(rng.uniform(0.2, 4.5), 2) for _ in range(rng.randrange(1, 4))]
+    def times(lo, hi, n):
+        # arrival times of one connection's messages, at least 0.3 s apart (each message arrives in two pieces 0.05 s apart)
+        ts = sorted(round(rng.uniform(lo, hi), 2) for _ in range(n))
+        for i in range(1, len(ts)):
+            ts[i] = round(max(ts[i], ts[i - 1] + 0.3), 2)
+        return ts
+    t1 = times(0.5, 4.0, rng.randrange(1, 3))
+    t2 = times(0.2, 4.5, rng.randrange(1, 4))
     timeout = rng.choice([None, 6.0])
     out = {}
 
